@@ -273,6 +273,9 @@ def run_controlled(ctx, props, quick=120, thorough=4000):
             spec['rules'] = [{'type': 'reach', 'enc': rng.randrange(len(spec['elems']) + 1),
                               'target': gen.in_unit(rng, 'AngularPosition', rng.uniform(-1, 3), True),
                               'brake': gen.in_unit(rng, 'Angle', rng.uniform(0.5, 6), True)}]
+        if not spec['rules'] and rng.random() < 0.7:
+            # a controller without (applicable) rules still decides: the duty cycle becomes 1 whatever the motor carried
+            spec['motor']['pwm0'] = rng.choice([0.0, -1.0, gen.dy(rng, -1, 1, 3)])
         op, _, _ = gen.run_op(rng, dt_si=dt, steps=(total, total), unit=rng.choice(['sec', 'sec', 'ms']))
         spec['ops'] = [op]
         sched = rng.random()
